@@ -65,7 +65,7 @@ func (c *c12Case) schema() (*jsonschema.Schema, []any, error) {
 		if i < len(c.ListCh) {
 			ch = c.ListCh[i]
 		}
-		vals = append(vals, (&repr.Builder{C: &repr.Script{Seq: ch}}).Build(v))
+		vals = append(vals, (&repr.Builder{C: &repr.Script{Seq: ch}, O: c11Opts}).Build(v))
 	}
 	switch c.Mode {
 	case "enum":
@@ -126,9 +126,11 @@ func (c *c12Case) wantCanonical() bool {
 var hashLaw func(x, y any) *failure // set by the verif-tagged file
 
 func checkC12(c *c12Case) (fl *failure, harnessErr string) {
-	inst := (&repr.Builder{C: &repr.Script{Seq: c.InstCh}}).Build(c.Inst)
-	if msg := selfCheckRepr(inst, c.Inst); msg != "" {
-		return nil, msg
+	inst := (&repr.Builder{C: &repr.Script{Seq: c.InstCh}, O: c11Opts}).Build(c.Inst)
+	if !hasLooseFloat32(c.Inst) {
+		if msg := selfCheckRepr(inst, c.Inst); msg != "" {
+			return nil, msg
+		}
 	}
 	c.InstRep = repr.Describe(inst)
 	fl = guard(func() *failure {
@@ -273,7 +275,7 @@ func TestC12(t *testing.T) {
 		}
 		mk := func(v *jv.V) []int {
 			l := &repr.Logger{In: repr.RapidChooser{T: t}}
-			(&repr.Builder{C: l}).Build(v)
+			(&repr.Builder{C: l, O: c11Opts}).Build(v)
 			return l.Log
 		}
 		if !c.FromDoc {
